@@ -115,7 +115,7 @@ func cmdHarness(args []string) {
 	res := w.Explore(fn, hargs)
 	fmt.Printf("explored %s: paths=%d steps=%d status=%v in %v (solver: %d queries, %v)\n", res.Name(), res.Paths, res.Steps, res.Status, time.Since(t1), w.S.Queries, w.S.Time)
 	for _, v := range res.Violations {
-		fmt.Printf("VIOLATED %s (known=%q) tape values=%d\n", v.Label, v.InKnown, len(v.Tape.Values))
+		fmt.Printf("VIOLATED %s (known=%q) tape values=%d site=%s msg=%s\n", v.Label, v.InKnown, len(v.Tape.Values), v.Site, v.Msg)
 		n := 0
 		for _, tv := range v.Tape.Values {
 			if tv.Val != 0 && n < 12 {
